@@ -64,6 +64,8 @@ type sched struct {
 	ei         int
 	trace      []Switch
 	truncated  bool // more switches happened than the pre-allocated trace can hold
+	// consecutive lock-blocked switches without any task passing a yield point in between
+	blockedStreak int
 	hash       uint64
 	preempts   int
 	blocked    int
@@ -174,6 +176,7 @@ func Yield(site string) {
 	t := s.cur
 	t.Steps++
 	s.steps++
+	s.blockedStreak = 0
 	if s.steps < s.nextSwitch {
 		return
 	}
@@ -216,14 +219,26 @@ func blockedSwitch(site string) {
 	s := theSched
 	if s == nil {
 		// No scheduler: a failed TryLock on a single goroutine means the lock is held
-		// by a real concurrent goroutine; just let the runtime schedule.
+		// by a real concurrent goroutine; just let the runtime schedule. If nobody ever
+		// releases it (a lock left held by code that has long returned) that is a hang: stop it.
+		soloSpins++
+		if soloSpins > 5_000_000 {
+			soloSpins = 0
+			panic("simrt: lock at " + site + " is held and never released (no task is running that could release it)")
+		}
 		runtime.Gosched()
 		return
 	}
 	t := s.cur
 	s.steps++
 	t.Steps++
+	s.blockedStreak++
 	to := s.pick(&s.r2, t, false)
+	if to != nil && s.blockedStreak > 64*len(s.tasks)+64 {
+		// every task that can run is itself waiting for a lock: nobody has made progress
+		// since the streak began
+		to = nil
+	}
 	if to == nil {
 		s.deadlock = true
 		OnDeadlock(fmt.Sprintf("deadlock: task %d blocked at %s and no other task can run", t.ID, site))
@@ -233,6 +248,8 @@ func blockedSwitch(site string) {
 	s.record("blocked", t, to, site)
 	s.handoff(t, to)
 }
+
+var soloSpins int
 
 type locker interface {
 	Lock()
@@ -313,7 +330,60 @@ func Lock(site string, mu locker) {
 		raceAcquire(unsafe.Pointer(a.w))
 		raceDisable()
 	}
+	noteHeld(ptrOf(mu), site, false, mu, nil)
 	heldYield(site)
+}
+
+// held locks (the scheduler runs one task at a time, so plain variables do)
+type heldLock struct {
+	p    unsafe.Pointer
+	site string
+	read bool
+	w    locker
+	r    rlocker
+}
+
+var heldLocks [32]heldLock
+var nHeld int
+
+//go:norace
+func noteHeld(p unsafe.Pointer, site string, read bool, w locker, r rlocker) {
+	if nHeld < len(heldLocks) {
+		heldLocks[nHeld] = heldLock{p, site, read, w, r}
+		nHeld++
+	}
+}
+
+//go:norace
+func noteReleased(p unsafe.Pointer, read bool) {
+	for i := nHeld - 1; i >= 0; i-- {
+		if heldLocks[i].p == p && heldLocks[i].read == read {
+			copy(heldLocks[i:nHeld-1], heldLocks[i+1:nHeld])
+			nHeld--
+			heldLocks[nHeld] = heldLock{}
+			return
+		}
+	}
+}
+
+// ReleaseLeftHeld unlocks every instrumented mutex that is still held although no task is
+// running any more (a lock acquired and never released), and returns where each was taken.
+//
+//go:norace
+func ReleaseLeftHeld() []string {
+	var sites []string
+	for nHeld > 0 {
+		h := heldLocks[nHeld-1]
+		nHeld--
+		heldLocks[nHeld] = heldLock{}
+		sites = append(sites, h.site)
+		if h.read {
+			h.r.RUnlock()
+		} else {
+			h.w.Unlock()
+		}
+	}
+	return sites
 }
 
 // Unlock replaces mu.Unlock().
@@ -327,6 +397,7 @@ func Unlock(site string, mu locker) {
 		raceReleaseMerge(unsafe.Pointer(a.w))
 		raceDisable()
 	}
+	noteReleased(ptrOf(mu), false)
 	mu.Unlock()
 	Yield(site)
 }
@@ -345,6 +416,7 @@ func RLock(site string, mu rlocker) {
 		raceAcquire(unsafe.Pointer(a.r))
 		raceDisable()
 	}
+	noteHeld(ptrOf(mu), site, true, nil, mu)
 	heldYield(site)
 }
 
@@ -358,6 +430,7 @@ func RUnlock(site string, mu rlocker) {
 		raceReleaseMerge(unsafe.Pointer(a.w))
 		raceDisable()
 	}
+	noteReleased(ptrOf(mu), true)
 	mu.RUnlock()
 	Yield(site)
 }
